@@ -178,7 +178,13 @@ class ComputeTypeVisitor(Visitor.DefaultVisitor):
                 )
                 expr.SetType(expr.GetOperator().GetReturnType())
             elif isinstance(expr, ast.AffixExpression):
-                expr.SetType(expr.children[0].GetType())
+                operandType = expr.children[0].GetType()
+                # ++ and -- are defined for scalars only
+                if not (operandType.IsPrimitive() and operandType.IsScalar()):
+                    Errors.ERROR_INCOMPATIBLE_TYPES.Raise(
+                        operandType, types.Integer()
+                    )
+                expr.SetType(operandType)
             elif isinstance(expr, ast.ConstructPrimitiveExpression):
                 self._ValidateConstructor(expr)
 
